@@ -21,6 +21,9 @@ from typing import Dict, List, Optional, Set
 from .loader import FuncInfo, Program
 
 
+from .build import effective_body
+
+
 class CannotInline(Exception):
     pass
 
@@ -312,9 +315,51 @@ class Normalizer:
                                 continue
                         i += 1
 
+    def _canonical_temps(self):
+        """A single-use temporary that is copied by the very next statement is that statement's value:
+        `t = E; x = t` is `x = E`, and a function whose whole body is `t = E; return t` is `return E`.  (t is stored once and read
+        once in the function, so nothing else can observe it.)"""
+        for f in self.prog.functions.values():
+            names = {}
+            for n in ast.walk(f.node):
+                if isinstance(n, ast.Name):
+                    c = names.setdefault(n.id, [0, 0])
+                    c[0 if isinstance(n.ctx, ast.Load) else 1] += 1
+                elif isinstance(n, (ast.Global, ast.Nonlocal)):
+                    for nm in n.names:
+                        names.setdefault(nm, [0, 0])[1] += 5
+            params = {a.arg for a in f.node.args.args + f.node.args.kwonlyargs + f.node.args.posonlyargs}
+            single = {k for k, (ld, st) in names.items() if ld == 1 and st == 1 and k not in params}
+            if not single:
+                continue
+            body = effective_body(f.node.body)
+            for n in ast.walk(f.node):
+                for fld in ("body", "orelse", "finalbody"):
+                    lst = getattr(n, fld, None)
+                    if not (isinstance(lst, list) and lst and isinstance(lst[0], ast.stmt)):
+                        continue
+                    i = 0
+                    while i + 1 < len(lst):
+                        a, b = lst[i], lst[i + 1]
+                        if isinstance(a, ast.Assign) and len(a.targets) == 1 and isinstance(a.targets[0], ast.Name) and a.targets[0].id in single:
+                            t = a.targets[0].id
+                            if isinstance(b, ast.Assign) and isinstance(b.value, ast.Name) and b.value.id == t \
+                                    and not any(isinstance(x, ast.Name) and x.id == t for tg in b.targets for x in ast.walk(tg)):
+                                b.value = a.value
+                                del lst[i]
+                                self.log.append(f"{f.qualname}:{b.lineno} <- single-use temporary `{t}` folded into the assignment")
+                                continue
+                            if isinstance(b, ast.Return) and isinstance(b.value, ast.Name) and b.value.id == t and lst is f.node.body and body == [a, b]:
+                                b.value = a.value
+                                del lst[i]
+                                self.log.append(f"{f.qualname}:{b.lineno} <- single-use temporary `{t}` folded into the return")
+                                continue
+                        i += 1
+
     def run(self):
         self._canonical_pool_calls()
         self._canonical_sorts()
+        self._canonical_temps()
         if not self.known:
             return self
         # stand-ins for renamed reference helpers are fixed first: they stay functions
